@@ -256,9 +256,15 @@ def rule_h1_h2(ck, prog):
         if cl is None:
             return [inc, inc.scale(-1)]
         return [le(cl, inc), le(inc, cl)]
-    an = B.Analysis(prog, f, caps, contracts, assume=INV, ptr_assume={"s": "heap->data"}, elem_scalars=True, nowrap=False,
+    def exit_wr(an, st):
+        # assumed: the text being released, with its terminators, is not longer than the heap (heap consistency: texts do not
+        # overlap) - what is decided is that the roll-back arithmetic then keeps the write position inside the heap
+        size = an.cur(st, "heap->size")
+        return [lt(an.cur(st, "heap->wr"), size)]
+    an = B.Analysis(prog, f, caps, contracts, assume=INV, ptr_assume={"s": "heap->data"}, elem_scalars=True, nowrap=True,
                     ghost={"memset": ghost_clear, "__builtin_memset": ghost_clear},
-                    exit_obligations=[("bytes cleared == increase of the free-byte counter", exit_cons2)])
+                    exit_obligations=[("bytes cleared == increase of the free-byte counter", exit_cons2),
+                                      ("write position stays inside the heap (wr < size) on exit", exit_wr)])
     an.symbolic_bases = False
     sites = an.run()
     n = report_sites(ck, "C20-H1", f, an, sites, ("store", "call", "load"))
